@@ -163,6 +163,10 @@ JOBS = [
     Job('Geocentric.Rotation', 'Geocentric::Rotation', ['C07', 'C13', 'C14'], description='rotation matrix: frame and copied entries'),
     Job('Geocentric.IntReverse', 'Geocentric::IntReverse', ['C07', 'C13', 'C14'], replace=['Math::atan2d', 'Geocentric::Rotation'], timeout=900, sat='cadical',
         description='geocentric -> geodetic: ranges of latitude and longitude, frame, optional matrix pointer'),
+    Job('GeodesicLine.SetDistance', 'GeodesicLine::SetDistance', ['C12'], const_classes=['<Geodesic'], replace=['GeodesicLine::GenPosition'], inline=['Math::NaN'],
+        description='third point by distance: NaN arc when the line lacks the capability'),
+    Job('GeodesicLine.SetArc', 'GeodesicLine::SetArc', ['C12'], const_classes=['<Geodesic'], replace=['GeodesicLine::GenPosition'],
+        description='third point by arc: distance stays NaN when the line lacks the capability'),
     Job('GeodesicLineExact.GenPosition', 'GeodesicLineExact::GenPosition', ['C12', 'C01', 'C13', 'C14'], const_classes=['<GeodesicExact'], timeout=900, sat='cadical',
         replace=['Math::sincosd', 'Math::atan2d', ('Math::AngNormalize', dict(ghost=False)), 'EllipticFunction::deltaE', 'EllipticFunction::deltaEinv',
                  'EllipticFunction::deltaD', 'EllipticFunction::deltaH', 'EllipticFunction::Delta', ('DST::integral', dict(arity=4))],
